@@ -1,6 +1,7 @@
 package rules
 
 import (
+	"fmt"
 	"go/token"
 	"go/types"
 	"sort"
@@ -55,6 +56,7 @@ func c01(w *core.World, r *core.Report) {
 
 	r.Rule("R01.6", "database mapping is decided in selectDB only; SELECT is emitted on its changed edge with its result", 4)
 	ruleDbMapping(w, r)
+	ruleDbTracking(w, r)
 
 	r.Rule("R01.8", "transaction brackets are classified by the command table in every state (see R09.3)", 6)
 	ruleTxnStateMachine(w, r)
@@ -1054,4 +1056,130 @@ func pathAssumed(p *core.Path, is func(ssa.Value) bool, val bool) bool {
 		}
 	}
 	return false
+}
+
+// ---------------------------------------------------------------- database tracking (R01.6, shared with C02 and C03)
+
+// ruleDbTracking: every replay path keeps a local "database the target
+// connection is in" and decides through selectDB(current, source db) whether a
+// SELECT is needed. That only works if (a) the local starts from a value that
+// cannot be mistaken for a real switch (-1 = unknown; 0 only for a connection
+// the function itself has just opened), (b) it is updated from nothing but
+// selectDB's first result, and (c) whenever it is updated the SELECT really
+// goes out (and a failed SELECT ends the replay) before the next entry.
+func ruleDbTracking(w *core.World, r *core.Report) {
+	type spec struct {
+		fn     string
+		emit   string  // callee that makes the target switch; "" = none (units carry their database)
+		initOK []int64 // admissible initial values
+	}
+	for _, sp := range []spec{
+		{"(*syncer.RedisOutput).parseAofCommand", "syncer.buildSelectCmdExecution", []int64{-1}},
+		{"(*syncer.RedisOutput).parseAofReplayUnits", "", []int64{-1}},
+		{"(*syncer.RedisOutput).rdbReplay", "pkg/redis.SelectDB", []int64{-1, 0}},
+		{"(*syncer.RedisOutput).rdbReplayBisync", "pkg/redis.SelectDB", []int64{-1, 0}},
+	} {
+		f := fn(w, r, sp.fn)
+		if f == nil {
+			continue
+		}
+		short := shortName(sp.fn)
+		sites := core.SitesNamed(f, false, "(*syncer.RedisOutput).selectDB")
+		if len(sites) != 1 {
+			r.Undecided(short+"/db-tracking", f.Pos(), "expected exactly one selectDB call in the replay loop, found %d", len(sites))
+			continue
+		}
+		sd := sites[0]
+		isRes0 := func(v ssa.Value) bool {
+			e, ok := core.Unwrap(v).(*ssa.Extract)
+			return ok && e.Index == 0 && e.Tuple == sd.Value()
+		}
+		// (a)+(b) definitions of the tracked variable
+		bad := ""
+		seen := map[ssa.Value]bool{}
+		var visit func(v ssa.Value)
+		visit = func(v ssa.Value) {
+			v = core.Unwrap(v)
+			if seen[v] {
+				return
+			}
+			seen[v] = true
+			if ph, ok := v.(*ssa.Phi); ok {
+				for _, e := range ph.Edges {
+					visit(e)
+				}
+				return
+			}
+			if isRes0(v) {
+				return
+			}
+			if u, ok := v.(*ssa.UnOp); ok && u.Op == token.MUL {
+				if a := core.Cell(u.X); a != nil { // a variable shared with a closure: all of its stores
+					for _, st := range core.CellStores(a) {
+						visit(st.Val)
+					}
+					return
+				}
+			}
+			if c, ok := core.ConstInt(v); ok {
+				for _, a := range sp.initOK {
+					if a == c {
+						return
+					}
+				}
+				bad = fmt.Sprintf("the tracked database starts as %d: the first SELECT of the source to that database would be judged redundant although the target connection may be elsewhere", c)
+				return
+			}
+			bad = "the tracked database is assigned from something other than selectDB's result: " + v.String()
+		}
+		visit(sd.Args()[0])
+		r.Check(bad == "", short+"/db-tracking-definitions", sd.Pos(), "%s", bad)
+
+		if sp.emit == "" {
+			continue
+		}
+		// (c) on the changed edge the switch is emitted before the next entry
+		var tb *ssa.BasicBlock
+		for _, b := range f.Blocks {
+			if iff, ok := b.Instrs[len(b.Instrs)-1].(*ssa.If); ok {
+				if e, ok := core.Unwrap(iff.Cond).(*ssa.Extract); ok && e.Index == 1 && e.Tuple == sd.Value() {
+					tb = b.Succs[0]
+				}
+			}
+		}
+		head := core.LoopHeadOf(sd.Instr.Block())
+		if tb == nil || head == nil {
+			r.Undecided(short+"/db-switch-emitted", sd.Pos(), "the branch on selectDB's 'changed' result or the replay loop was not found")
+			continue
+		}
+		var emits []core.Site
+		isEmit := func(in ssa.Instruction) bool {
+			ci, ok := in.(ssa.CallInstruction)
+			if !ok {
+				return false
+			}
+			s := core.ResolveCall(ci)
+			if !core.MatchName(s.Name, sp.emit) {
+				return false
+			}
+			for _, a := range s.Args() {
+				if core.DependsOn(a, isRes0) {
+					emits = append(emits, s)
+					return true
+				}
+			}
+			return false
+		}
+		atHead := func(in ssa.Instruction) bool { return in == head.Instrs[0] }
+		esc := core.PathFromBlock(tb, atHead, isEmit)
+		okFail := true
+		if sp.emit == "pkg/redis.SelectDB" {
+			for _, e := range emits {
+				if !failureReturned(f, e) {
+					okFail = false
+				}
+			}
+		}
+		r.Check(esc == nil && len(emits) > 0 && okFail, short+"/db-switch-emitted", sd.Pos(), "when selectDB reports a change the switch must reach the target (with selectDB's database) before the next entry is handled, and a failed switch must end the replay; otherwise the tracked database and the connection disagree and later keys land in the wrong database (escape=%v, emissions=%d, failure ends replay=%v)", esc != nil, len(emits), okFail)
+	}
 }
